@@ -537,6 +537,10 @@ func (P *Prog) staticCallees(cc *ssa.CallCommon, out map[string]bool) []*ssa.Fun
 	case *ssa.Builtin:
 		return nil
 	}
+	if c, ok := P.db.Funcs["functype:"+typeName(cc.Value.Type())]; ok {
+		P.contractKeys(c, out)
+		return nil
+	}
 	// a function value loaded from a struct field that has an (assumed) contract
 	if u, ok := cc.Value.(*ssa.UnOp); ok {
 		if fa, ok := u.X.(*ssa.FieldAddr); ok {
